@@ -167,7 +167,7 @@ type trWorld struct {
 	broken   bool // the sequential setup panicked
 }
 
-func (w *trWorld) bad(s string) { w.viol[s] = true }
+func (w *trWorld) bad(s string) { sched.Own(func() { w.viol[s] = true }) }
 
 func trSpansOf(obs []trace.C5TObs) ([]string, bool) {
 	var ids []string
@@ -281,7 +281,12 @@ func (w *trWorld) checkResult(name string, fenced bool, order []string, byPart m
 	if fenced && known && key != trSidxKey(st.sidx) {
 		w.bad(name + ": index view and core view of a fenced query belong to different publications")
 	}
-	w.outcomes = append(w.outcomes, fmt.Sprintf("%s:s%d/c%d", name, es-w.epoch0(), epoch-w.epoch0()))
+	sched.Own(func() { w.outcomes = append(w.outcomes, fmt.Sprintf("%s:s%d/c%d", name, es-w.epoch0(), epoch-w.epoch0())) })
+}
+
+func (w *trWorld) isClosed() (c bool) {
+	sched.Own(func() { c = w.closed })
+	return c
 }
 
 func (w *trWorld) epoch0() uint64 { return w.last - uint64(w.publications()) }
@@ -344,7 +349,7 @@ func (w *trWorld) query(name, kind string) {
 	}
 	view := q.View()
 	if view == nil {
-		if !w.closed {
+		if !w.isClosed() {
 			w.bad(name + ": no core snapshot although the table holds data and is not closed")
 		}
 		q.Abort()
@@ -371,7 +376,7 @@ func (w *trWorld) query(name, kind string) {
 		w.bad(fmt.Sprintf("%s: reading the pinned view failed: %v", name, firstLine(err.Error())))
 		return
 	}
-	if w.closed && len(order) == 0 {
+	if w.isClosed() && len(order) == 0 {
 		return
 	}
 	w.checkResult(name, kind == "F", order, byPart, st, view.Epoch, gotOrder, got)
@@ -597,7 +602,7 @@ func (w *trWorld) build(sc scenario) []func() {
 		case strings.HasPrefix(r, "I:"):
 			threads = append(threads, w.introducer)
 		case r == "close":
-			threads = append(threads, func() { w.closed = true; w.t.Close() })
+			threads = append(threads, func() { sched.Own(func() { w.closed = true }); w.t.Close() })
 		default:
 			panic("unknown role " + r)
 		}
@@ -781,7 +786,7 @@ func trStats(w *trWorld, res *sched.Result) {
 }
 
 func init() {
-	register(family{Name: "trace", Setup: trSetup, Scenarios: []scenario{
+	register(family{Name: "trace", RaceOK: true, Setup: trSetup, Scenarios: []scenario{
 		{Name: "trace-add", Roles: []string{"qU", "I:add", "qF"}},
 		{Name: "trace-merge-U", Roles: []string{"qU", "I:merge"}},
 		{Name: "trace-merge-F", Roles: []string{"qF", "I:merge"}},
